@@ -165,6 +165,7 @@ type World struct {
 	NameOwner map[string]int // name -> key index of the creator
 	Staked    map[int]bool   // key index -> has staked (learned from receipts)
 	FreshSeq  int
+	GovBias   bool // prefer staking / voting transactions (several voters on the same tallies)
 }
 
 // PreferredSender biases the sender towards accounts for which the kind can succeed.
@@ -212,6 +213,9 @@ func (w *World) DrawKind(t *rapid.T) string {
 	}
 	if !w.Public {
 		kinds = append(kinds, "enterprise", "enterprise-bad")
+	}
+	if w.GovBias && w.DPoS {
+		kinds = append(kinds, "stake", "stake", "stake", "votebp", "votebp", "votebp", "votebp", "votedao", "votedao", "unstake")
 	}
 	return rapid.SampledFrom(kinds).Draw(t, "kind")
 }
